@@ -51,7 +51,10 @@ BASE = dict(Clients={"A", "B"}, Sides={"A", "B", "X"}, Nameplates={"4", "5"},
             AppId=Raw('[c \\in {"A","B"} |-> "app"]'),
             CodeChoices=Raw('[c \\in {"A","B"} |-> {<<"4", "w">>}]'),
             AllowAllocate=set(), AllowInput=set(), MaxSend=0, MaxDrops=0, MaxDup=0, MaxSwap=0, MaxInject=0,
-            MaxTamper=0, InjectSet=Raw("{}"), LateFrames=False, WelcomeErr=False, ConnFails=False, MaxCloseAt=0)
+            MaxTamper=0, MaxHelper=0, KnownErrs=set(), InjectSet=Raw("{}"), LateFrames=False, ReentKinds=set(), WelcomeErr=False, ConnFails=False, MaxCloseAt=0)
+
+
+DELEG = Raw('[c \\in {"A","B"} |-> "delegated"]')
 
 
 def F(a, b):
@@ -102,11 +105,17 @@ def cfgs_for(prop, tier):   # noqa: F811  (replaces the draft above)
             out["close_mismatch"] = mk(AllowClose={"A", "B"}, CodeChoices=codesB)
             out["close_connfail"] = mk(AllowClose={"A", "B"}, ConnFails=True, MaxDrops=F(1, 0))
     elif prop == "C14":
-        out["close_late_alloc"] = mk(AllowClose={"A"}, AllowAllocate={"A"}, LateFrames=True, MaxDup=1)
-        out["input_close"] = mk(AllowClose={"B"}, AllowInput={"B"}, MaxDrops=F(0, 1))
+        out["reent_close_alloc"] = mk(Mode=DELEG, AllowClose={"A"}, AllowAllocate={"A"}, LateFrames=True,
+                                      ReentKinds={"welcome", "code", "key", "verifier", "versions", "message"})
+        out["input_close"] = mk(AllowClose={"B"}, AllowInput={"B"}, MaxHelper=3)
+        out["third_input"] = mk(AllowInput={"B"}, MaxHelper=2, MaxInject=2, InjectSet=inj,
+                                CodeChoices=Raw('[c \\in {"A","B"} |-> IF c = "A" THEN {} ELSE {<<"4","w">>}]'))
+        out["fail_then_code"] = mk(AllowClose={"A", "B"}, ConnFails=True, WelcomeErr=True, AllowAllocate={"A"})
         if not q:
-            out["third_party"] = mk(AllowClose={"A"}, MaxInject=2, InjectSet=inj, MaxSend=F(1, 0))
-            out["errors"] = mk(AllowClose={"A", "B"}, WelcomeErr=True, ConnFails=True, LateFrames=True)
+            out["third_party"] = mk(AllowClose={"A"}, MaxInject=1, InjectSet=inj, MaxSend=F(1, 0))
+            out["input_reent"] = mk(Mode=DELEG, AllowClose={"B"}, AllowInput={"B"}, MaxHelper=2, LateFrames=True,
+                                    ReentKinds={"welcome", "code", "key", "verifier", "versions", "message"})
+            out["errors"] = mk(AllowClose={"A", "B"}, WelcomeErr=True, ConnFails=True)
             out["drops_dups"] = mk(AllowClose={"A"}, MaxDrops=F(1, 1), MaxDup=1, MaxSend=F(1, 0))
     elif prop == "C01":
         out["codes"] = mk(CodeChoices=codesB, MaxSend=F(1, 1))
@@ -134,7 +143,7 @@ def gen_cfg(prop):
     if prop in ("C03", "C09"):
         d.update(AllowClose=set(), WelcomeErr=False, ConnFails=False)
     if prop == "C14":
-        d.update(LateFrames=True, AllowInput={"B"})
+        d.update(LateFrames=True, AllowInput={"B"}, MaxHelper=5, Mode=DELEG, ReentKinds={"welcome", "code", "key", "verifier", "versions", "message"})
     return d
 
 
@@ -165,7 +174,7 @@ class RealRun:
             if getattr(cl, "closed_at", None) is None and any(k == "closed" for k, _ in cl.events):
                 cl.closed_at = self.world.stepno
         if act["a"] in ("Drop", "Dup", "SwapS2C", "TamperS2C", "Inject", "AppClose", "ConnFail", "LateDeliver", "AppAllocate",
-                        "AppInput"):
+                        "AppInput", "ArmClose"):
             self.nontrivial.add(act["a"])
         if spec_act is not None:
             pr = project_real(self.world, self.bind)
@@ -184,6 +193,8 @@ class RealRun:
         return [(k, v) for k, v in cl.events if not k.endswith("!") and not (cl.mode == "deferred" and k == "closed")]
 
     def finish(self, drained, goal=False):
+        import gc
+        gc.collect()        # "Unhandled error in Deferred" is logged when the Deferred is collected
         rec = self.tracker.record(self.tid, drained=drained, goal=goal, extra={"origin": self.origin})
         self.world.shutdown()
         return rec
@@ -221,6 +232,8 @@ def world_to_spec(run, a):
         return w.conn(k).client.name
     if t == "ConnOpen":
         return {"a": "ConnOpen", "c": a["c"], "x": "error" if a.get("welcome_error") else "ok", "y": "*"}
+    if t == "ArmClose":
+        return {"a": t, "c": a["c"], "x": a["kind"], "y": "*"}
     if t in ("ConnFail", "AppSend", "AppClose", "AppAllocate", "AppInput"):
         return {"a": t, "c": a["c"], "x": "*", "y": "*"}
     if t == "AppSetCode":
@@ -240,9 +253,13 @@ def world_to_spec(run, a):
     return None
 
 
+def modes_of(states):
+    return {c: cl["mode"] for c, cl in states[0]["cs"].items()}
+
+
 def replay_spec_behaviour(tid, states, origin, prop):
     """Spec -> code.  Returns (run, drift or None)."""
-    run = RealRun(tid, origin)
+    run = RealRun(tid, origin, modes=modes_of(states))
     drift = None
     for i, st in enumerate(states[1:], start=1):
         la = st["lastAct"]
@@ -331,6 +348,51 @@ def random_real_walk(tid, rng, prop, steps=60):
     return run, goal, drained
 
 
+def run_schedule(tid, entry, origin):
+    """Execute a stored schedule (corpus entry or replay file) on fresh real wormholes."""
+    run = RealRun(tid, origin, modes=entry.get("modes"))
+    applied = 0
+    for a in entry["schedule"]:
+        en = run.world.enabled(faults=True)
+        if a["a"] in ("Serve", "Deliver", "LateDeliver", "Drop", "CloseDone", "ConnOpen", "ConnFail", "Retry") and \
+                not any(e["a"] == a["a"] and e.get("k") == a.get("k") and e.get("c") == a.get("c") for e in en):
+            break          # the schedule no longer applies to this tree (different frames in flight)
+        run.apply(a)
+        applied += 1
+    drained = run.drain()
+    return run, drained, applied
+
+
+def corpus_entries(prop):
+    import glob
+    out = []
+    for fn in sorted(glob.glob(os.path.join(common.HERE, "corpus", prop, "*.json"))):
+        e = json.load(open(fn))
+        e["_file"] = os.path.basename(fn)
+        out.append(e)
+    return out
+
+
+def replay(prop, path):
+    d = json.load(open(path))
+    entry = d.get("replay", d)
+    if "modes" not in entry and "observation" in entry:
+        entry["modes"] = {c: v["mode"] for c, v in entry["observation"]["cl"].items()}
+    with common.Workdir(prop + "_replay") as wd:
+        run_, drained, applied = run_schedule(1, entry, "replay")
+        rec = run_.finish(drained)
+        verdicts, _ = run_observer(wd, [rec])
+    bad = [n for n in DECIDES[prop] if not verdicts[1][n]]
+    for i, st in enumerate(run_.world.trace):
+        print("%3d %-40s ev=%s exc=%s" % (i + 1, json.dumps(st["a"])[:40], st["ev"], st["exc"]))
+    print("applied %d of %d steps; internal=%s" % (applied, len(entry["schedule"]), rec["internal"]))
+    print("observer:", {n: verdicts[1][n] for n in DECIDES[prop]})
+    if bad:
+        print("VIOLATION property=%s replay=%s" % (prop, path))
+        return 1
+    return 0
+
+
 # ------------------------------------------------------------------------------------------------ TLC passes
 def run_observer(wd, records):
     """Evaluate MailboxObs.tla on the recorded runs.  Returns {tid: {name: bool}}."""
@@ -359,7 +421,8 @@ def run_trace_validation(wd, lines, ntraces):
             f.write(json.dumps(l) + "\n")
     consts = dict(BASE)
     consts.update(MaxSend=F(9, 9), MaxDrops=F(9, 9), AllowClose={"A", "B"}, MaxDup=9, MaxSwap=9, AllowAllocate={"A", "B"},
-                  AllowInput={"A", "B"}, LateFrames=True, WelcomeErr=True, ConnFails=True,
+                  AllowInput={"A", "B"}, LateFrames=True, WelcomeErr=True, ConnFails=True, MaxHelper=99,
+                  ReentKinds={"welcome", "code", "key", "verifier", "versions", "message"},
                   CodeChoices=Raw('[c \\in {"A","B"} |-> {<<"4", "w">>, <<"4", "v">>, <<"5", "w">>}]'))
     common.write_model(wd, "MC_Trace", "WormholeTrace", consts, spec="TSpec", constraint="Mark", postcondition="Post",
                        extra_defs="ASSUME RegInit")
@@ -384,7 +447,12 @@ def run(prop, tier):
         # ---- 1. exhaustive model checking on the current tables
         states = transitions = 0
         cexs = []
+        known_errs = set()
+        for k in common.load_known():
+            if k.get("status") == "known":
+                known_errs.update(k.get("model_errs", []))
         for name, consts in cfgs_for(prop, tier).items():
+            consts = dict(consts, KnownErrs=known_errs)
             mname = "MC_%s_%s" % (prop, name)
             common.write_model(wd, mname, "Wormhole", consts, invariants=MODEL_INVARIANTS[prop], view="view")
             r = tlc.run(mname + ".tla", mname + ".cfg", cwd=wd.path, timeout=3000)
@@ -405,6 +473,12 @@ def run(prop, tier):
             records.append(run_.finish(drained))
             if drift:
                 cov["drift"].append(dict(drift, tid=tid))
+        for e in corpus_entries(prop):
+            tid += 1
+            run_, drained, applied = run_schedule(tid, e, "corpus:" + e["_file"])
+            runs[tid] = run_
+            records.append(run_.finish(drained))
+        cov["corpus_schedules"] = len(corpus_entries(prop))
         gname = "MC_%s_gen" % prop
         common.write_model(wd, gname, "Wormhole", gen_cfg(prop), invariants=[], view=None)
         nsim = 150 if quick else 1500
@@ -495,7 +569,8 @@ def normalise_internal(s):
     import re
     s = re.sub(r"^[AB-]:", "", s)
     s = re.sub(r"0x[0-9a-f]+", "0x", s)
-    m = re.search(r"NoTransition\(.*?state (\w+) of <(?:wormhole\.)?([\w.]+) object.*?input (?:symbol )?(\w+)", s)
+    m = re.search(r"NoTransition.*?function (\w+)\.(\w+) at 0x.*?function (\w+)\.(\w+) at 0x", s)
     if m:
-        return "NoTransition:%s:%s:%s" % (m.group(2).split(".")[-1], m.group(1), m.group(3))
-    return s[:120]
+        return "NoTransition:%s:%s:%s" % (m.group(3), m.group(4), m.group(2))
+    s = re.sub(r"^(ws_\w+|api:\w+|connectionLost|timer|log):", "", s)
+    return s.split("(")[0][:120]
